@@ -1,6 +1,6 @@
 SPECIFICATION Spec
 CONSTANTS DC = {"dc-1", "dc-2", "dc-3"}
-  Groups = {{"dc-1"}, {"dc-2"}, {"dc-3"}}
+  Groups = {{"dc-1", "dc-3"}, {"dc-2"}}
   Counts = {1, 2, 3}
   GlobalCounts = {1, 2, 4}
   MaxPhys = 8
